@@ -677,7 +677,7 @@ func TestVerif_C11(t *testing.T) {
 				}
 				for _, sy := range syncers {
 					for _, missing := range []bool{false, true} {
-						if missing && R == 4 && !c.Thorough() {
+						if missing && R == 4 && (!c.Thorough() || sy != 0) {
 							continue
 						}
 						for a0 := 0; a0 < 32; a0++ {
@@ -691,7 +691,7 @@ func TestVerif_C11(t *testing.T) {
 	// the quick tier thins the block-1 bit for R=4: it is enumerated for replica 0 only (all of block 0 stays
 	// exhaustive).
 	quickR4 := !c.Thorough()
-	c.Bound("R4", map[bool]string{true: "shard 1, syncer replica0, block 0 exhaustive (16^4), block-1 bit on replica0 only", false: "shard 1, syncer first/last, all 32^4 assignments, with and without missing peer fragments"}[quickR4])
+	c.Bound("R4", map[bool]string{true: "shard 1, syncer replica0, block 0 exhaustive (16^4), block-1 bit on replica0 only", false: "shard 1, syncer first/last, all 32^4 assignments; missing peer fragments with syncer replica0"}[quickR4])
 	c.Bound("R2_R3", "all 32^R assignments, both views, syncer first/last, with and without missing peer fragments, shards per 'shards'")
 
 	type gkey struct {
